@@ -106,6 +106,10 @@ makes this `decide` fail. -/
 theorem seq_nodes_comment_aware :
     Gen.wsOffending.all (fun n => Gen.knownWsNodes.contains n) = true := by decide
 
+/-- every terminal of the current grammar graphs is of a kind the engine model has, or one of the pinned regular
+expressions (`Ref.pinnedOtherTerminals`): a new complex terminal breaks this `decide` -/
+theorem terminals_pinned : Gen.otherTerminals.all (fun t => Ref.pinnedOtherTerminals.contains t) = true := by decide
+
 /-- every terminal with letters is matched caselessly, except literal-spelling introducers and the
 known findings -/
 theorem keywords_caseless :
